@@ -853,7 +853,7 @@ class CrystalMap:
         map_size = np.prod(map_shape)
         if isinstance(item, np.ndarray):
             array = np.empty(map_size, dtype=item.dtype)
-            if item.shape[-1] == 3 and map_size > 3:  # Assume RGB
+            if item.ndim > 1 and item.shape[-1] == 3:  # Assume RGB
                 map_shape += (3,)
                 array = np.column_stack((array,) * 3)
         elif item in ["orientations", "rotations"]:  # Definitely RGB
@@ -896,7 +896,7 @@ class CrystalMap:
         sliced_array = reshaped_array[slices]
 
         # Reshape and slice mask with points not in data
-        if array.shape[-1] == 3 and map_size > 3:  # RGB
+        if len(map_shape) > len(self._original_shape):  # RGB
             not_in_data = np.dstack((~self.is_in_data,) * 3)
         else:  # Scalar
             not_in_data = ~self.is_in_data
